@@ -23,7 +23,6 @@ PROP = dict(
         "within 'forged' all content is arbitrary. Confidentiality is not modelled.",
         "'bound to the pending request' = unique-identifier field (in front of the authenticator) equals the pending one AND origin timestamp (v4) / client cookie (v5) equals the pending one",
         "pre-state set through hooks (set_pending etc.); that handle_timer leaves exactly such a state (pending uid = uid on the wire) is checked by c13_poll_struct_*/c13_poll_wire_*",
-        "c07_v5_plain_authnak / c07_v5_forged exclude the known-defect region: NTPv5, stratum 0, authnak flag, poll byte = 127 or > last poll interval, datagram not (authentic and bound)",
     ],
     stub_notes=[
         "core::str::from_utf8 / <[u8]>::is_ascii: ASCII-only models (exact at their only call site, decode_draft_identification)",
@@ -31,10 +30,9 @@ PROP = dict(
     ],
     harnesses=[
         H(NH, "c07", "c07_v4_plain", "handle_incoming, NTPv4, no authenticator: hdr+uid+cookie field in clear (28). Nothing is accepted, no state change at all (incl. NTS-NAK and other kiss codes)", timeout=600),
-        H(NH, "c07", "c07_v5_plain_authnak", "handle_incoming, NTPv5 with the authnak flag, no authenticator: hdr+draft+uid+reference-id response(16); outside the known-defect region: no effect", timeout=600),
+        H(NH, "c07", "c07_v5_plain_authnak", "handle_incoming, NTPv5 with the authnak flag, no authenticator: hdr+draft+uid+reference-id response(16): nothing accepted, no state change (incl. poll bytes that read as RATE/DENY)", timeout=600),
         H(NH, "c07", "c07_v5_plain_sync", "handle_incoming, NTPv5 without authnak flag, no authenticator: nothing accepted, no state change", timeout=600),
-        H(NH, "c07", "c07_v5_plain_kf_authnak_kiss", "KNOWN DEFECT region: unauthenticated NTPv5 datagram (hdr+draft+uid) with stratum 0 + authnak flag + poll 127 / > own interval and the (clear-text) "
-          "unique id and client cookie of the request: valid_server_response lets it pass (NTS-NAK exception), then the RATE/DENY branches run before the NTS-NAK branch: "
-          "poll rate raised or source demobilised without authentication", timeout=600),
+        H(NH, "c07", "c07_v5_plain_authnak_kiss", "focused: unauthenticated NTPv5 datagram (hdr+draft+uid) with stratum 0 + authnak flag + poll 127 / > own interval and the (clear-text) "
+          "unique id and client cookie of the request (the region in which the tree before fix 9b98367 raised the poll rate or demobilised the source): no action, no state change", timeout=600),
     ],
 )
